@@ -437,6 +437,9 @@ func TestVerifC25(t *testing.T) {
 			for _, l := range x.Log {
 				fmt.Println("   ", l)
 			}
+			if x.Status != vsched.Completed {
+				r.Violation(vh.Sig("clause", "leak-run-"+x.Status.String(), "blocked_in", strings.Join(x.BlockedIn, "|")), lc, "history %v then dispose: execution %s %s %.300s", lc.Hist, x.Status, x.Blocked, x.Crash)
+			}
 			for _, l := range leaked {
 				fmt.Println("LEAKED:", l)
 				k := l[strings.Index(l, "blocked at"):]
@@ -456,8 +459,8 @@ func TestVerifC25(t *testing.T) {
 		}
 		return
 	}
+	zvC25Leaks(r) // cheap and sequential: before the schedule explorations use up the time budget
 	for _, sc := range scs {
 		zvC25Run(r, sc, bound, nil)
 	}
-	zvC25Leaks(r)
 }
